@@ -255,6 +255,14 @@ func c09SiblingIndependence(w *World, r *Report, prop string) {
 				}
 				// the accumulation: everything obtained from the carried value by extending it (concatenation, append, an accumulating
 				// helper that takes it and returns the same type, merges)
+				isReset := func(ins ssa.Instruction) bool {
+					sl, ok := ins.(*ssa.Slice)
+					if !ok || sl.High == nil {
+						return false
+					}
+					c, ok := sl.High.(*ssa.Const)
+					return ok && c.Value != nil && c.Int64() == 0
+				}
 				carried := map[ssa.Value]bool{phi: true}
 				isExt := func(ref ssa.Instruction, from ssa.Value) (ssa.Value, bool) {
 					switch x := ref.(type) {
@@ -279,7 +287,7 @@ func c09SiblingIndependence(w *World, r *Report, prop string) {
 							}
 						}
 					case *ssa.Slice:
-						if x.X == from {
+						if x.X == from && !isReset(x) {
 							return x, true
 						}
 					}
@@ -312,6 +320,9 @@ func c09SiblingIndependence(w *World, r *Report, prop string) {
 						}
 						if _, ok := isExt(ref, v); ok {
 							continue
+						}
+						if isReset(ref) {
+							continue // v[:0]: the collected elements are dropped, only the storage is reused
 						}
 						bad = fmt.Sprintf("the value accumulated across the children (%s, carried around the loop at %s) is read inside the loop by %s at %s: the text printed for one child contains what was collected from its earlier siblings", types.TypeString(phi.Type(), shortQual), w.instrPos(phi), instrKind(ref), w.instrPos(ref))
 					}
